@@ -193,6 +193,7 @@ pub fn op_asm(f: &[String]) -> String
         }
     }
     s.push_str(&format!("\"symbols\":[{}],", syms.join(",")));
+    s.push_str(&format!("\"first_error\":{},", json::string(&first_error(&report))));
     s.push_str(&format!("\"messages\":[{}],", msgs.join(",")));
     let mut printed = Vec::<u8>::new();
     report.print_all(&mut printed, &fileserver, false);
@@ -257,10 +258,16 @@ fn first_error(report: &diagn::Report) -> String
     {
         if m.kind == diagn::MessageKind::Error
         {
-            // innermost message text
+            // follow the first inner message down to a leaf; the key is the last
+            // error-kind description on that path
             let mut cur = m;
-            while let Some(inner) = cur.inner.iter().find(|i| i.kind == diagn::MessageKind::Error) { cur = inner; }
-            return cur.descr.clone();
+            let mut key = m.descr.clone();
+            while let Some(inner) = cur.inner.first()
+            {
+                cur = inner;
+                if cur.kind == diagn::MessageKind::Error { key = cur.descr.clone(); }
+            }
+            return key;
         }
     }
     "?".to_string()
